@@ -119,6 +119,9 @@ def c20_symbolic(cfg):
         if carrier == "A":
             ev = np.array([float(2 ** k) for k in range(N)])
             ev[off[j]] = ev[off[i]]
+            if cfg.get("rounding"):
+                # the two levels agree only up to floating-point rounding (0.1 + 0.2 vs 0.3), as eigensolver output would
+                ev[off[i]], ev[off[j]] = 0.3, 0.1 + 0.2
             h0b = [np.diag(ev[off[k] : off[k + 1]]) for k in range(nb)]
 
             def Heval(a, c, n):
@@ -443,6 +446,8 @@ def configs(tier):
                     for carrier in ("A", "C"):
                         if i < j:
                             S(kind="shared_energy", hermitian=herm, sizes=sizes, pos=[i, j], carrier=carrier)
+                    if i < j:
+                        S(kind="shared_energy", hermitian=herm, sizes=sizes, pos=[i, j], carrier="A", rounding=True)
             for b in range(nb):
                 if sizes[b] >= 2:
                     S(kind="mask_on_degenerate_pair", hermitian=herm, sizes=sizes, pos=[b])
